@@ -642,7 +642,9 @@ impl World {
         if self.this_conn.is_none() {
             self.this_conn = tc;
         }
-        let probe = std::mem::take(&mut *self.log.lock().unwrap());
+        let mut probe = std::mem::take(&mut *self.log.lock().unwrap());
+        // grouped by target pid, arrival order kept per target (cross-actor order is scheduling)
+        probe.sort_by_key(|e| e.split(':').next().and_then(|p| p.parse::<u64>().ok()).unwrap_or(0));
         let cell = conn.cell.clone();
         let alive = cell.as_ref().map(|c| (c.get_status() as u8) < (ractor::ActorStatus::Stopping as u8)).unwrap_or(false);
         let children: Vec<ActorCell> = cell.as_ref().map(|c| c.get_children()).unwrap_or_default();
@@ -802,6 +804,39 @@ async fn op_send(w: &mut World, log: &mut Log, st: &mut Stats, k: u64, desc: &st
     }
     let env = env_fields(w, k, &sent, desc, known);
     log.rec(format!("send {k} {desc} {env}"), obs);
+    note_killed(w, log, st, k).await;
+    sent
+}
+
+/// Several frames written back-to-back (one write, no waiting for the node in between).
+async fn op_batch(w: &mut World, log: &mut Log, st: &mut Stats, k: u64, descs: &[String]) -> Vec<String> {
+    let mut bytes = Vec::new();
+    for d in descs {
+        match encode_desc(d) {
+            Some(b) => bytes.extend(b),
+            None => {
+                log.rec(format!("batch {k} {}", descs.join("+")), "unparsable-in-replay");
+                return vec![];
+            }
+        }
+    }
+    if !w.conns.contains_key(&k) {
+        return vec![];
+    }
+    w.conns.get_mut(&k).unwrap().write(&bytes).await;
+    let (obs, sent) = w.observe(k).await;
+    st.bump("lts_batch");
+    if obs.contains("probe=[") && !obs.contains("probe=[]") {
+        st.bump("lts_probe_delivery");
+    }
+    let joined = descs.join("+");
+    if let Some(c) = w.conns.get_mut(&k) {
+        for d in descs {
+            c.chals.extend(challenges_of(d));
+        }
+    }
+    let env = env_fields(w, k, &sent, &joined, None);
+    log.rec(format!("batch {k} {joined} {env}"), obs);
     note_killed(w, log, st, k).await;
     sent
 }
@@ -1044,6 +1079,17 @@ async fn lts_case(log: &mut Log, st: &mut Stats, rng: &mut Rng, case_no: u64) {
             }
         }
     }
+    // a burst right behind a (possibly wrong) digest: must not slip through before the stop
+    if mode == 8 && server_side {
+        let sent = op_send(&mut w, log, st, k, &format!("name:{peer}:pc:1")).await;
+        if let Some(c) = last_challenge(&sent, true) {
+            let rem = w.rem_now();
+            let target = rem.first().copied().unwrap_or(1);
+            let dg = if rng.chance(1, 2) { hex(&digest(COOKIE, c)) } else { hex(&digest("other-cookie", c)) };
+            let fs = vec![format!("cchal:9:{dg}"), format!("cast:{target}"), "spawn:1,2".to_string(), "pgjoin:sc:g2:1".to_string()];
+            op_batch(&mut w, log, st, k, &fs).await;
+        }
+    }
     // phase 2: whatever the outcome, the peer now tries everything
     let steps = rng.range(4, 12);
     let mut tags = 0;
@@ -1056,6 +1102,28 @@ async fn lts_case(log: &mut Log, st: &mut Stats, rng: &mut Rng, case_no: u64) {
                 op_garbage(&mut w, log, st, k, &g).await
             }
             3 if i > 6 => op_drop(&mut w, log, st, k).await,
+            4 | 5 => {
+                // a burst: the peer does not wait for answers (only frames whose handling needs no
+                // further answer from the environment)
+                let n = rng.range(2, 4);
+                let mut fs = Vec::new();
+                for _ in 0..n {
+                    let f = random_frame(&w, rng, k, chal);
+                    let head = f.split(':').next().unwrap().to_string();
+                    if ["cast", "call", "reply", "nempty", "ready", "spawn", "term", "ping", "pong", "pgjoin", "pgleave", "cempty", "netempty", "aempty", "cstatus", "sstatus"].contains(&head.as_str()) {
+                        if head == "call" {
+                            tags += 1;
+                            let to = f.split(':').nth(1).unwrap().to_string();
+                            fs.push(format!("call:{to}:{tags}"));
+                        } else {
+                            fs.push(f);
+                        }
+                    }
+                }
+                if fs.len() >= 2 {
+                    op_batch(&mut w, log, st, k, &fs).await;
+                }
+            }
             _ => {
                 let mut f = random_frame(&w, rng, k, chal);
                 if f.starts_with("call:") {
@@ -1306,6 +1374,11 @@ async fn replay_ops(log: &mut Log, st: &mut Stats, path: &str) {
                 if let Some(c) = last_challenge(&sent, server_side) {
                     cur_issued.insert(k, c);
                 }
+            }
+            ["batch", k, descs, ..] if world.is_some() => {
+                let k: u64 = k.parse().unwrap_or(0);
+                let fs: Vec<String> = descs.split('+').map(|x| x.to_string()).collect();
+                op_batch(world.as_mut().unwrap(), log, st, k, &fs).await;
             }
             ["local", _k, what, pid, ..] if world.is_some() => {
                 // one recorded line per open session: execute once (for the first), skip the rest
